@@ -177,6 +177,14 @@ def collect_sites(spec, data, trail, parent, key, e, layouts, out):  # noqa: C90
         if lay is not None and "forbid" in lay["how"]:
             out.append(Site(trail, (*trail, "<add-extra>"), "unknown_key",
                             lambda: data.__setitem__("zz_unknown", 1), ("extra", trail, "zz_unknown")))
+        groups = {}
+        for f in ms["fields"]:
+            pth = field_path(ms, f, lay)
+            if len(pth) > 1 and isinstance(data, dict) and pth[0] in data:
+                groups.setdefault(pth[0], []).append(f)
+        for g in groups:
+            # the whole container of a flattened group is missing: reported once, at the parent, under the group's key
+            out.append(Site(trail, (*trail, g), "missing_group", (lambda c, k: lambda: c.pop(k))(data, g), ("missing", trail, g)))
         for f in ms["fields"]:
             path = field_path(ms, f, lay)
             cur = data
